@@ -74,34 +74,45 @@ package sm3
 //@   assert after call block#2: forall i :: 0 <= i && i < 8 ==> d.h[i] == SM3F(SM3IV(), M2, 0, (L + PL - len(p)) / 64 + n / 64)[i]
 //@   assert after call block#2: (L + PL - len(p)) / 64 + n / 64 == (L + PL - len(p) + n) / 64
 
-// assembly: assumed to stay inside the buffers they are given (bounded differential checks in
-// /verif/bounded back these assumptions); weak frame = whole element heaps
+// assembly: assumed to write only into the buffers they are given, all of which are allocated by
+// kdfBy4/kdfBy8 themselves (bounded differential checks in /verif/bounded back this assumption)
 //@ func blockMultBy4 trusted property C01
 //@   requires blocks >= 1
-//@   modifies heap H_u32, heap H_u8
+//@   modifies fresh H_u32, fresh H_u8
 //@ func copyResultsBy4 trusted property C01
-//@   modifies heap H_u8
+//@   modifies fresh H_u8
 //@ func blockMultBy8 trusted property C01
 //@   requires blocks >= 1
-//@   modifies heap H_u32, heap H_u8
+//@   modifies fresh H_u32, fresh H_u8
 //@ func copyResultsBy8 trusted property C01
-//@   modifies heap H_u8
+//@   modifies fresh H_u8
 
 //@ func prepareInitData property C01,C10
-//@   requires 0 <= baseMD.nx && baseMD.nx < 64 && lenStart <= 64 && len(p) >= baseMD.nx + 4 + lenStart + 8
+//@   requires 0 <= baseMD.nx && baseMD.nx < 64 && lenStart <= 64 && len(p) >= baseMD.nx + 4 + lenStart + 8 && !sameobj(p, baseMD.x)
 //@   modifies p[0..len(p)]
 
 //@ func kdfBy4 property C01,C10
-//@   requires 0 <= baseMD.nx && baseMD.nx < 64 && baseMD.nx == baseMD.len % 64
-//@   requires 0 <= limit && limit <= 134217727 && 0 <= keyLen && keyLen <= limit * 32
+//@   requires dinv(baseMD) && ghost(dlen, baseMD) < 2305843009213693000
+//@   requires 0 <= limit && limit <= 134217727 && 0 <= keyLen && keyLen <= limit * 32 && (limit - 1) * 32 < keyLen
 //@   ensures len(result) == keyLen
-//@   modifies heap H_u32, heap H_u8
+//@   modifies nothing
 //@   assert before call blockMultBy4#1: blocks * 64 == baseMD.nx + 4 + t + 8
 //@   loop 2 invariant 0 <= i && i <= times && sameobj(ret, k) && len(ret) == limit * 32 - i * 128 && len(k) == limit * 32
 //@   loop 2 decreases times - i
 //@   loop 4 invariant 0 <= i && i <= remain && sameobj(ret, k) && len(ret) == limit * 32 - times * 128 && len(k) == limit * 32
 //@   loop 4 decreases remain - i
 
+//@ func kdfBy8 property C01,C10
+//@   requires dinv(baseMD) && ghost(dlen, baseMD) < 2305843009213693000
+//@   requires 8 <= limit && limit <= 134217727 && 0 <= keyLen && keyLen <= limit * 32 && (limit - 1) * 32 < keyLen
+//@   ensures len(result) == keyLen
+//@   modifies nothing
+//@   assert before call blockMultBy8#1: blocks * 64 == baseMD.nx + 4 + t + 8
+//@   assert before call blockMultBy4#1: blocks * 64 == baseMD.nx + 4 + t + 8
+//@   loop 2 invariant 0 <= i && i <= times && sameobj(ret, k) && len(ret) == limit * 32 - i * 256 && len(k) == limit * 32
+//@   loop 2 decreases times - i
+//@   loop 5 invariant 0 <= i && i <= remain && remain < 4 && sameobj(ret, k) && len(ret) >= remain * 32 && len(k) == limit * 32
+//@   loop 5 decreases remain - i
 
 // byte j (0..31) of the digest whose words are W (big-endian)
 //@ pred sm3byte(W, j) := (W[j / 4] / pow2(24 - 8 * (j % 4))) % 256
@@ -136,6 +147,7 @@ package sm3
 //@   ensures len(result) == len(in) + 32
 //@   ensures forall j :: 0 <= j && j < len(in) ==> result[j] == old(in[j])
 //@   ensures forall b :: 0 <= b && b < 32 ==> result[len(in) + b] == sm3byte(W, b)
+//@   ensures cap(in) >= len(in) + 32 ==> sameslice(result, in[:len(in) + 32])
 //@   ensures dinv(d) && ghost(dlen, d) == L && ghost(dmsg, d) == M
 //@   modifies in[len(in)..cap(in)]
 
@@ -169,3 +181,22 @@ package sm3
 //@   assert after call checkSum#1: forall b :: 0 <= b && b < 32 ==> result[b] == sm3byte(SM3W(CAT(M, L, BE32ARR(i + 1), 0, 4), L + 4), b)
 //@   assert after call copy#1: kdfblock(k, i, keyLen, M, L)
 //@   assert after call copy#1: forall q :: 0 <= q && q < i ==> kdfblock(k, q, keyLen, M, L)
+
+//@ func kdf property C01,C10 cfg default,purego
+//@   requires dinv(baseMD) && ghost(dlen, baseMD) < 2305843009213693000
+//@   requires 0 <= limit && limit <= 134217727 && 0 <= keyLen && keyLen <= limit * 32 && (limit - 1) * 32 < keyLen
+//@   let M := ghost(dmsg, baseMD)
+//@   let L := ghost(dlen, baseMD)
+//@   ensures len(result) == keyLen
+//@   ensures (limit < 4 || cfg_purego) ==> forall q :: 0 <= q && q < limit ==> kdfblock(result, q, keyLen, M, L)
+//@   modifies nothing
+
+// Kdf: the output is the KDF of the bytes of z (the ghost message after Reset and Write(z) has exactly
+// those bytes); on the assembly tiers with four or more output blocks the functional clause rests on the
+// assumed lane contracts (bounded differential check)
+//@ func (*digest).Kdf property C01,C10 cfg default,purego
+//@   requires len(z) < 2305843009213693000 && 0 <= keyLen && keyLen <= 4294967000 && !sameobj(z, baseMD.x)
+//@   ensures len(result) == keyLen
+//@   ensures ghost(dlen, baseMD) == len(z) && forall j :: 0 <= j && j < len(z) ==> ghost(dmsg, baseMD)[j] == old(z[j])
+//@   ensures ((keyLen + 31) / 32 < 4 || cfg_purego) ==> forall q :: 0 <= q && q < (keyLen + 31) / 32 ==> kdfblock(result, q, keyLen, ghost(dmsg, baseMD), len(z))
+//@   modifies baseMD.h, baseMD.x, baseMD.nx, baseMD.len, ghost(dmsg, baseMD), ghost(dlen, baseMD)
